@@ -173,8 +173,9 @@ Definition w_export_before_defun := [OUse 0%N 1%N; OExport 2%N 0%N; ODefun 2%N 1
 Definition w_defun_inherited := [ODefun 2%N 1; OExport 2%N 0%N; OUse 0%N 1%N; OInPkg 1%N; ODefun 2%N 2; OUnexport 2%N 0%N].
 Definition w_marker := [OExport 0%N 0%N].
 Definition w_makunbound_inherited := [OSetq 0%N 1; OExport 0%N 0%N; OUse 0%N 1%N; OInPkg 1%N; OMakunbound 0%N].
+Definition w_use_transitive := [OInPkg 2%N; OSetq 0%N 1; OExport 0%N 2%N; OUse 2%N 0%N; OUse 0%N 1%N].
 Definition witnesses := [w_unuse; w_private_pushed; w_use_overwrites; w_fmakunbound_stale; w_export_before_defun;
-                         w_defun_inherited; w_marker; w_makunbound_inherited].
+                         w_defun_inherited; w_marker; w_makunbound_inherited; w_use_transitive].
 Lemma outside_guard_refuted :
   forallb differs witnesses = true /\ forallb (fun w => negb (guard_run PK NM (sinit 0%N) w)) witnesses = true.
 Proof. split; vm_compute; reflexivity. Qed.
